@@ -445,12 +445,20 @@ package server
 // can no longer be imported into the neighbour's VRF replaces one that could (and was advertised): the neighbour is
 // sent the withdrawal, the function does not just drop the change (vrf is in scope at the returns of the VRF block)
 //@ func (*BgpServer).prePolicyFilterpath
+//@   tag C17 C09
 //@   claims at-return at-call
 //@   at-return requires ok && old != nil && table.CanImportToVrf(vrf, old) ==> ret0 != nil
 // from C17 "re-advertised to that VRF's attached peers as a plain route": the withdrawals the filter chain derives from
 // the replaced route are plain too - the replaced route handed to the chain for a VRF neighbour is its plain form
 // (the global VPN route itself, withdrawn, would go out in the VPN family with the RD-qualified NLRI)
-//@   at-call ^filterpath(peer, path, old) requires peerVrf != "" && arg1 != nil && arg2 != nil ==> arg2 == old0.ToLocal()
+//@   at-call ^filterpath(peer, path, old) requires peerVrf != "" && !conf.AsPathOptions.State.ReplacePeerAs && arg1 != nil && arg2 != nil ==> arg2 == old0.ToLocal()
+// from C09 "AS_PATH ... rewritten ... as the peer type and per-peer options require" / "never advertised ... to an eBGP
+// peer whose AS is already in its AS_PATH": with replace-peer-as the loop check downstream sees what the peer is
+// sent - the rewritten path - for announcements and for withdrawals alike (a withdrawal that still carries the
+// peer's AS is dropped by that check and the peer keeps the route); and the AS that is replaced is the one the
+// session runs with (State), which is the configured one when there is one
+//@   at-call ^filterpath(peer, path, old) requires conf.AsPathOptions.State.ReplacePeerAs && arg1 != nil ==> called(ReplaceAS)
+//@   at-call path.ReplaceAS( requires arg2 == conf.State.PeerAs
 
 // =============================================================================================
 // C12 - graceful restart: the per-call parts (DESIGN.md 4 C12; every "exactly when <timer/event order>" clause
